@@ -46,6 +46,7 @@ from functools import singledispatchmethod
 from ufl.algorithms.map_integrands import map_integrands
 from ufl.algorithms.remove_component_tensors import IndexReplacer
 from ufl.classes import (
+    ComponentTensor,
     Division,
     Expr,
     Identity,
@@ -99,6 +100,7 @@ class IndexSumSimplifier(DAGTraverser):
         """Initialise."""
         super().__init__(compress=compress, visited_cache=visited_cache, result_cache=result_cache)
         self._rules: dict[tuple, IndexReplacer] = {}
+        self._bound_indices: dict[Expr, frozenset] = {}
 
     @singledispatchmethod
     def process(self, o: Expr) -> Expr:
@@ -109,6 +111,18 @@ class IndexSumSimplifier(DAGTraverser):
     def _(self, o: Expr) -> Expr:
         """Reuse if untouched."""
         return self.reuse_if_untouched(o)
+
+    def _indices_bound_in(self, o):
+        """Return the indices bound by an IndexSum or ComponentTensor anywhere inside o."""
+        bound = self._bound_indices.get(o)
+        if bound is None:
+            bound = frozenset()
+            if isinstance(o, ComponentTensor | IndexSum):
+                bound = frozenset(o.ufl_operands[1].indices())
+            for op in o.ufl_operands:
+                bound = bound | self._indices_bound_in(op)
+            self._bound_indices[o] = bound
+        return bound
 
     def _substitute(self, expr, k, a):
         """Replace the index k with a in expr."""
@@ -159,6 +173,9 @@ class IndexSumSimplifier(DAGTraverser):
             for f1, f2 in ((with_k[0], with_k[1]), (with_k[1], with_k[0])):
                 if isinstance(f1, Indexed) and isinstance(f2, IndexSum):
                     summand, (j,) = f2.ufl_operands
+                    if j.count() in f1.ufl_free_indices:
+                        # Moving f1 into the sum over j would capture j
+                        continue
                     inner = self._cancel(_flatten_product(summand, [f1]), k)
                     if inner is not None:
                         return _make_product(rest + [self._index_sum(inner, j)])
@@ -254,7 +271,13 @@ class IdentityEliminator(IndexSumSimplifier):
                 others = with_k[:i] + with_k[i + 1 :] + rest
                 if not others:
                     return None
-                return self._substitute(_make_product(others), k, a)
+                product = _make_product(others)
+                if not self._indices_bound_in(product).isdisjoint((k, a)):
+                    # The index replacement is not aware of scopes: do
+                    # not substitute when an inner sum or component
+                    # tensor binds one of the indices involved
+                    continue
+                return self._substitute(product, k, a)
         return None
 
     # Work around singledispatchmethod inheritance issue;
